@@ -193,6 +193,16 @@ fn free_key_wires(data: &Data, inputs: PartialWitness<F>, k: usize) -> Option<Ve
     Some((0..k).filter(|&i| w.try_get_target(Target::VirtualTarget { index: i }).is_none()).collect())
 }
 
+/// verifier-only data in the allocation order of add_virtual_verifier_data: cap, then digest
+fn key_alloc_order(vo: &VO) -> Vec<u64> {
+    let mut v = Vec::new();
+    for h in &vo.constants_sigmas_cap.0 {
+        v.extend(h.elements.iter().map(|f| f.to_canonical_u64()));
+    }
+    v.extend(vo.circuit_digest.elements.iter().map(|f| f.to_canonical_u64()));
+    v
+}
+
 struct Verdict {
     accepted: bool,
     how: String,
@@ -203,15 +213,7 @@ fn adversarial_run(ev: &CircuitEval, data: &Data, pw: PartialWitness<F>, attacke
     if o.accepted() {
         return Verdict { accepted: true, how: "honest".into() };
     }
-    let key: Vec<u64> = {
-        // allocation order of add_virtual_verifier_data: cap, then digest
-        let mut v = Vec::new();
-        for h in &attacker_key.constants_sigmas_cap.0 {
-            v.extend(h.elements.iter().map(|f| f.to_canonical_u64()));
-        }
-        v.extend(attacker_key.circuit_digest.elements.iter().map(|f| f.to_canonical_u64()));
-        v
-    };
+    let key: Vec<u64> = key_alloc_order(attacker_key);
     let free = free_key_wires(data, pw.clone(), key.len()).unwrap_or_default();
     if free.is_empty() {
         return Verdict { accepted: false, how: format!("{:?}", o).chars().take(80).collect() };
@@ -421,6 +423,8 @@ fn main() {
         (segs, vec![v.accepted as i128], note)
     };
 
+    // (fid 1105 cases are printed last, so that the first reported disagreement is a concrete accepted foreign proof)
+    let mut free_counts: Vec<(&str, i128)> = Vec::new();
     let evs: Vec<CircuitEval> = outers.iter().map(|o| CircuitEval::new(&o.data)).collect();
     // jobs: (outer index, slots, tag)
     let mut jobs: Vec<(usize, Vec<&ChildProof>, String, Vec<[u64; 4]>)> = Vec::new();
@@ -431,7 +435,7 @@ fn main() {
             set_proof(&mut pw, &o.targets.leaf_proofs[0], &own.proof);
             let k = own.key.len();
             let free = free_key_wires(&o.data, pw, k).map(|f| f.len() as i128).unwrap_or(-1);
-            out.case(1105, "private-batch", &[], &[free]);
+            free_counts.push(("private-batch", free));
         }
         for c in &cps {
             // the fake-leaf circuit meets every child proof; the others their own, the fake leaf's and their nearest variant
@@ -486,20 +490,38 @@ fn main() {
     // ---------------- public-batch layer: children are private-batch circuits over different leaves
     // (same private-batch program, different baked leaf key => same shape, different verifier key)
     let pb_kids: Vec<&Outer> = outers.iter().filter(|o| o.n == 1 && o.name != "private-batch[canonical-leaf]").collect();
-    let pb_proofs: Vec<ChildProof> = pb_kids
+    let pb_made: Vec<Option<ChildProof>> = pb_kids
         .par_iter()
         .map(|o| {
-            let own = cps.iter().find(|c| c.key == o.key && c.valid).unwrap();
+            let own = cps.iter().find(|c| c.key == o.key && c.valid)?;
             let mut pw = PartialWitness::new();
-            assert!(set_proof(&mut pw, &o.targets.leaf_proofs[0], &own.proof));
+            if !set_proof(&mut pw, &o.targets.leaf_proofs[0], &own.proof) {
+                return None;
+            }
             for t in o.targets.dummy_nullifier_pre_images[0].iter() {
                 pw_set(&mut pw, *t, 12345);
             }
-            let p = o.data.prove(pw).expect("private batch prove");
-            assert!(o.data.verify(p.clone()).is_ok());
-            ChildProof { label: o.name.clone(), key: vk_felts(&o.data.verifier_only), vo: o.data.verifier_only.clone(), valid: true, proof: p }
+            // should the circuit leave key wires to the prover, an honest prover fills in the intended key
+            let key = key_alloc_order(&o.vo);
+            for i in free_key_wires(&o.data, pw.clone(), key.len()).unwrap_or_default() {
+                pw.set_target(Target::VirtualTarget { index: i }, F::from_canonical_u64(key[i])).ok()?;
+            }
+            let p = no_panic(|| o.data.prove(pw).ok()).flatten()?;
+            if o.data.verify(p.clone()).is_err() {
+                return None;
+            }
+            Some(ChildProof { label: o.name.clone(), key: vk_felts(&o.data.verifier_only), vo: o.data.verifier_only.clone(), valid: true, proof: p })
         })
         .collect();
+    if pb_made.iter().any(|p| p.is_none()) || pb_made.is_empty() {
+        out.note("c11", "could not prove every private-batch child circuit: public-batch layer skipped");
+        for (t, f) in &free_counts {
+            out.case(1105, t, &[], &[*f]);
+        }
+        out.flush();
+        return;
+    }
+    let pb_proofs: Vec<ChildProof> = pb_made.into_iter().map(|p| p.unwrap()).collect();
     for (o, _) in pb_kids.iter().zip(&pb_proofs) {
         out.note(
             "child",
@@ -537,7 +559,7 @@ fn main() {
             let mut pw = PartialWitness::new();
             set_proof(&mut pw, &targets.private_batch_proofs[0], &pub_children[0].proof);
             let free = free_key_wires(&data, pw, key.len()).map(|f| f.len() as i128).unwrap_or(-1);
-            out.case(1105, "public-batch", &[], &[free]);
+            free_counts.push(("public-batch", free));
         }
         for c in &pub_children {
             let w_ok = {
@@ -589,6 +611,9 @@ fn main() {
             out.note("c11", &format!("real prove+verify of the public batch over its own child: {}", ok));
             assert!(ok);
         }
+    }
+    for (t, f) in &free_counts {
+        out.case(1105, t, &[], &[*f]);
     }
     out.note("c11", &format!("done after {:?}", t0.elapsed()));
     out.flush();
